@@ -279,7 +279,11 @@ package avfs
 //@ func walkDir
 //@   event
 //@   requires vfs != nil && d != nil
-//@   ensures[C14] firstcall(walkDirFn)
+//@   ensures[C14] firstcall(walkDirFn) && arg("walkDirFn#0", 0) == path && arg("walkDirFn#0", 1) == d && arg("walkDirFn#0", 2) == nil
+//@   ensures[C14] result("walkDirFn#0") == filepath.SkipDir && d.IsDir() ==> r0 == nil && !called(ReadDir)
+//@   ensures[C14] result("walkDirFn#0") != nil && !(result("walkDirFn#0") == filepath.SkipDir && d.IsDir()) ==> r0 == result("walkDirFn#0") && !called(ReadDir)
+//@   ensures[C14] result("walkDirFn#0") == nil && !d.IsDir() ==> r0 == nil && !called(ReadDir)
+//@   ensures[C14] result("walkDirFn#0") == nil && d.IsDir() ==> called(ReadDir) && arg(ReadDir, 1) == path
 //@   loop 0 invariant true
 
 // ---- per-view state: setters modify the receiver's own cell only (C11) ------------------------
